@@ -391,12 +391,26 @@ fn gen_payload(b64_flag: bool, ser: Ser, detached: bool) -> Vec<u8> {
       b
     }
     1 => format!("notice {}", ctx::choose(10_000)).into_bytes(),
-    2 => format!("{{\"msg\":\"hello\",\"n\":{}}}", ctx::choose(1000)).into_bytes(),
+    2 => {
+      // a JSON object; sometimes with a member that is called like a header parameter
+      if ctx::choose(3) == 0 {
+        format!("{{\"msg\":\"hello\",\"nonce\":\"payload-nonce-{}\"}}", ctx::choose(10)).into_bytes()
+      } else {
+        format!("{{\"msg\":\"hello\",\"n\":{}}}", ctx::choose(1000)).into_bytes()
+      }
+    }
     3 => format!("he said \"hi\" \\ back\\slash {}", ctx::choose(100)).into_bytes(),
     _ => format!("line\nbreak\ttab {} \u{1}", ctx::choose(100)).into_bytes(),
   };
   if ctx::choose(3) == 0 {
     p.extend_from_slice(b".with.dots");
+  }
+  // payloads are bytes: a few begin with the three bytes that some text tools call a byte order mark
+  if kind != 2 && ctx::chance(1, 16) {
+    let mut q = vec![0xEF, 0xBB, 0xBF];
+    q.extend_from_slice(&p);
+    p = q;
+    ctx::stat("probe.payload_begins_with_bom_bytes");
   }
   // one payload in 150 is large, with sizes on both sides of the 64 KiB / 128 KiB marks
   if ctx::chance(1, 150) {
@@ -983,7 +997,10 @@ fn deliver(n: &Notice, others: &[Notice]) -> Delivered {
       }
     }
     (Move::Truncate, _) => {
-      let cut = ctx::choose(n.wire.len());
+      let mut cut = ctx::choose(n.wire.len());
+      while !n.wire.is_char_boundary(cut) {
+        cut -= 1;
+      }
       wire = n.wire[..cut].to_owned();
       Some(())
     }
@@ -1576,7 +1593,10 @@ fn separation(signers: &[Signer], n: &Notice) {
   }
   // another nonce
   // (another nonce: an unrelated one, or the token's nonce with only its LAST character changed)
+  // (a token without a nonce whose PAYLOAD has a member called nonce: the payload is not the header)
+  let payload_nonce: Option<String> = serde_json::from_slice::<Value>(&n.raw_payload).ok().and_then(|v| v.get("nonce").and_then(|x| x.as_str().map(str::to_owned)));
   let other_nonce = match &n.nonce {
+    None if payload_nonce.is_some() => payload_nonce.unwrap(),
     Some(t) if ctx::choose(2) == 0 => {
       let mut o = t.clone();
       let last = o.pop().unwrap_or('x');
